@@ -57,13 +57,22 @@ FIXED = [
      'warping_paths_fast([1.5,0],[1.5,1.5,1.5],window=1,psi=1) returned 0.0, expected 1.5; -1 marks misplaced', None),
     ('F22', 'C04', 'fix: band of the C warping-paths matrix was one column too wide when the second series is longer',
      'l1=4,l2=5,window=3: C matrix cell (4,1) filled although out of band', None),
+    ('F23', 'C05', 'fix: dtw.warping_path backtracked without the penalty and from the wrong cell under psi end-relaxation',
+     'warping_path([0,2.5],[0,1,1],penalty=2) returned a path costlier than the distance; warping_path([0,0],[0,1],psi=(0,0,0,1)) = [(0,0)]', None),
+    ('F24', 'C05', 'fix: best_path2 used np.Inf, which NumPy 2 removed', 'best_path2 raised AttributeError on matrices with -1 marks', None),
+    ('F25', 'C05', 'fix: dtw_warping_path(_ndim) started back-tracking in the corner instead of the relaxed end cell',
+     'warping_path_fast([0,0],[1,0,2.5],psi=1) = [(0,1)] (does not reach the relaxed corner)', None),
 ]
 
 OPEN = [
-    {'id': 'K01', 'property': 'C11', 'status': 'open', 'check': 'path', 'api': None, 'engine': None, 'match': {'psi_end': True},
-     'what': 'warping path traced under psi end-relaxation can stop outside the relaxed corner or skip the chosen end row/column '
-             '(both engines; best_path does not know psi and follows ties/-1 marks diagonally): dtw.warping_path([0,0],[0,1],psi=(0,0,0,1)) = [(0,0)]',
-     'witness': {'s1': [[0.0], [0.0]], 's2': [[0.0], [1.5]], 'ndim': 1, 'psi': [0, 0, 0, 1]}},
+    {'id': 'K01', 'property': 'C05', 'status': 'open', 'check': 'path',
+     'api': ['best_path(py matrix)', 'best_path(c matrix)', 'best_path(py matrix,int,penalty)', 'best_path(c matrix,int,penalty)',
+             'best_path2(py matrix)', 'best_path_compact'],
+     'engine': None, 'match': {'psi_end': True},
+     'what': 'best_path / best_path2 / best_path_compact called directly on a matrix whose relaxed end cells are marked with -1 can leave the relaxed row/column '
+             '(ties with the marked cells are followed diagonally; the functions do not know psi): dtw.best_path(dtw.warping_paths([0,0],[1,0,2.5],psi=1)[1]) = [(0,1)]. '
+             'warping_path / warping_path_fast were repaired (they now start from the selected end cell).',
+     'witness': {'s1': [0.0, 0.0], 's2': [1.0, 0.0, 2.5], 'psi': 1}},
     # {id, property, status:'open', check, api, engine, match:{}, what, witness}
 ]
 
